@@ -98,8 +98,8 @@ def run(tier, seed, only=None):
                "their standard deviations and all inter-point distances / height differences must agree; per run the "
                "corrections must be orthogonal to the datum transformations restricted to the constrained subset "
                "(numpy reference on the recorded system). class = (network kind, defect, subset size class, algorithm)")
-    n = tier_n(tier, 24, 500)
-    nsub = tier_n(tier, 3, 5)
+    n = tier_n(tier, 96, 500)
+    nsub = tier_n(tier, 4, 5)
     fr = netgen.Frame()
     jobs = []
     for i in range(n):
@@ -135,6 +135,7 @@ def run(tier, seed, only=None):
         lst.sort(key=lambda t: t[0])
         base = None
         lin_mm = 0.0
+        lin_m0 = 0.0
         for si, s, net, feats, g, txt in lst:
             wit = dict(seed=seed, index=i, subset=list(s), alg=alg, kind=net.kind, features=feats)
             if ck.sanitizer(g.rr, wit, prefix="gama-local:"):
@@ -189,6 +190,7 @@ def run(tier, seed, only=None):
                 base = (R, txt, s)
                 # what the stopping rule of the linearisation iterations leaves open in the coordinates [mm]
                 lin_mm = netlevel.linearisation_bound(ref0, evs[0]["minx"] or []) if evs else 0.0
+                lin_m0 = netlevel.linearisation_bound_m0(ref0, evs[0]["minx"] or [], evs[-1]["x"] if len(evs[-1]["x"]) == ref0.n else evs[0]["x"]) if evs else 0.0
                 continue
             if base is None:
                 continue
@@ -199,7 +201,13 @@ def run(tier, seed, only=None):
             # stops iterating once the linearisation error is below 0.0005 mm, so residuals may differ by that much
             # and v'Pv / standard deviations by ~2*(0.0005 mm / |v|) ~ 2e-4 relative
             # angular residuals: 0.0005 mm at a 30 m sight is 0.01 cc
-            bad = netlevel.compare_physical(B, R, rel=2e-4, what=("obs", "stats"), res_tol=1e-2)
+            # (the same rule bounds v'Pv: |d sqrt(v'Pv)| / sqrt(v'Pv) <= sum |vw| ew / v'Pv per run, from the recorded system)
+            rel_lin = max(netlevel.rel_between_linearisation_points(net), 2 * lin_m0)
+            ck.ratio("relative linearisation bound on m0 / 2e-4", 2 * lin_m0, 2e-4)
+            if not math.isfinite(rel_lin) or rel_lin > 0.05:
+                ck.inconc("a posteriori deviation not determined to 5 % by the linearisation criterion (tiny v'Pv)")
+                continue
+            bad = netlevel.compare_physical(B, R, rel=rel_lin, what=("obs", "stats"), res_tol=1e-2)
             corr = netlevel.correlated_obs_keys(net)
             seen = set()
             for key, msg, okey in bad:
